@@ -277,11 +277,11 @@ def _run_phase(case, env, obj, out, dig):
         out['probes']['limit_%s' % ('above_default' if case.get('limit', 1000) > 1000 else case.get('limit', 1000))] = 1
         for w in case['words']:
             exact = rpda.accepts(snap0, w)
-            pb = 300_000 + 6000 * (max(case.get('limit', 1000), 1000) + 30) * (len(w) + 1) ** 2
+            pb = 500_000 + 12000 * (max(case.get('limit', 1000), 1000) + 30) * (len(w) + 1) ** 2
             st, lib_acc, ticks = call(env, pa.pda_accepts_word, obj, w, budget=pb)
             if not record(st, lib_acc, ticks, 'pda_accepts_word', w):
                 continue
-            st, val, ticks = call(env, pa.pda_simulate_word, obj, w, budget=300_000 + 12 * ticks)
+            st, val, ticks = call(env, pa.pda_simulate_word, obj, w, budget=500_000 + 20 * ticks)
             if not record(st, val, ticks, 'pda_simulate_word', w):
                 continue
             rows = _plain_rows(val)
